@@ -2,6 +2,7 @@ import AITB.Model.Proto
 import AITB.Model.Guard
 import AITB.Model.ModelState
 import AITB.Model.CoopDyn
+import AITB.Model.AmdpHull
 open AITB AITB.Guard AITB.MS AITB.Sampling
 
 namespace DrvC06
@@ -326,6 +327,11 @@ def amdpLine : P String := do
   let v := v.failIf (!(T.all fun m => m.all (fun row => rowDistB eps row && row.all (fun x => match x with | .fin q => decide (0 ≤ q) | _ => false))))
              s!"{comp} row_not_distribution"
   let v := v.failIf (!(R.all fun row => row.all isFin)) s!"{comp} reward_not_finite"
+  -- … and every reward is an average of the POMDP's rewards: inside the interval spanned by 0 and the expected rewards of the
+  -- beliefs that fell into the bucket (theorems amdp_dense_reward_in_hull / amdp_sparse_reward_in_hull; the sparse variant
+  -- is only within the tolerance of it)
+  let hslack : Rat := if sparse then tol + eps else eps
+  let v := v.failIf (!(all2 S1 A (fun s a => rewardHullB hslack evs s a (get2 R s a)))) s!"{comp} reward_outside_hull"
   -- the discretizer sends every belief inside the augmented state space, to a state whose base component is the
   -- belief's most likely state (theorem discretize_lt covers the arithmetic; the entropy term is not modelled)
   let v := v.failIf (bs.any (fun (_, i) => decide (i ≥ S0 * buckets))) s!"AMDP::makeDiscretizer index_out_of_range"
